@@ -301,6 +301,12 @@ def build_T18(tree):
                 return None
             if t in ('decoded_coordinates_data', 'z_values', 'graphic_type', 'graphic_data', 'self._graphic_data'):
                 return None
+            if t == 'decoded_coordinates_data.flags.writeable':
+                # the cached array rebuilt with the common z column is made read-only (like the views of the stored bytes)
+                if v != 'False':
+                    raise Unsupported('decoded coordinates are made writeable')
+                type_guard['readonly'] = True
+                return None
             if t == 'known_coordinate_type':
                 if v != "getattr(self,'_coordinate_type',None)":
                     raise Unsupported('known_coordinate_type is no longer getattr(self, "_coordinate_type", None)')
@@ -362,6 +368,8 @@ def build_T18(tree):
                                doc='`get_graphic_data` on a parsed group: refusal (ValueError) of a requested coordinate type that '
                                    'contradicts the type handed down by the containing instance (`_coordinate_type`) or a stored '
                                    'CommonZCoordinateValue (3-D only); 0 = decoding goes ahead'))
+    out.append('/-- the array decoded with the common z column (a new, otherwise writeable array) is made read-only before it is cached -/\n'
+               'def decodedSharedZReadOnly : Bool := ' + ('true' if type_guard.get('readonly') else 'false'))
     if set(split_expr) != {'split', 'indices', 'total', 'guard'}:
         raise Unsupported('index-list split expressions / validation not found in get_graphic_data: ' + ','.join(sorted(split_expr)))
     g = split_expr['guard']
